@@ -293,6 +293,12 @@ func c08Run(c *h.Ctx) {
 			c08FreeRun(c, id, c.Rng(id))
 		}
 	}
+	if c.Batch%4 == 0 || c.Thorough() {
+		id := "backlog"
+		if c.Case(id) {
+			c08Backlog(c, id, c.Rng(id))
+		}
+	}
 	for k := 0; k < c.Pick(2, 10); k++ {
 		id := fmt.Sprintf("retx%d", k)
 		if c.Case(id) {
